@@ -29,6 +29,7 @@ RULE = ("engines with the General activation method (Mamdani, Larsen, Takagi-Sug
         "default, or two different output values); distinct = distinct (engine, batch)")
 RULE += (" Stream `engine-io` (fv/streams/engine_io.py): look-ups by name / index (positive, negative, bool, missing), input_values / output_values / values on float, 0-d and 1-D values, the input_values setter with 0-d / 1-D / 2-D / higher-dimensional arrays, against Op/EngineIO.lean and Op/InputValues.lean.")
 RULE += (" Families `special-value history` and `memory layouts` (fv/streams/batch_layouts.py): weighted engines whose constants may be +-inf x batches dense in NaN / +-inf cells and all-NaN rows (every order of finite / +inf / -inf / NaN defuzzified values from one row to the next, also across two calls); engines with 2-3 inputs x the same batch held as columns of a C / Fortran matrix, interleaved, reversed and read-only views, ONE array object for variables that read the same signal, lagged windows of one recording, and input matrices whose columns alias each other: compared with the row-by-row run, and every buffer of the caller (of the plain batches too) must hold afterwards what it held before.")
+RULE += (" Family `no value per row` (fv/streams/batch_layouts.py): engines of the ordinary generator with every output variable disabled, every rule block disabled, both, an enabled output variable that no rule concludes (alone or next to others), every rule disabled, or every input variable disabled x batches of 1..8 rows, also after an earlier call: in EVERY batch case `Engine.output_values` must have one row per row of the inputs and `Engine.values` must not raise and must show, row for row, what the row-by-row run shows.")
 ASSUMPTIONS = ["batch and row results are produced by the same float operations, so they are compared within 1e-12; the "
                "model comparison uses 1e-7 and the fragile-point filter of C01"]
 LEVEL_TEXT = ("Lean theorems: batch_eq_rows (the single fill-forward / default / clip pass of OutputVariable.defuzzify over a "
@@ -59,6 +60,16 @@ def obs_fuzzy(e, n):
     return out
 
 
+def obs_all(e):
+    """`Engine.values` (input values and output values side by side): its rows, or the exception it raises"""
+    try:
+        with np.errstate(all="ignore"):
+            got = np.asarray(e.values, dtype=float)
+        return {"shape": list(got.shape), "rows": [[float(x) for x in r] for r in got] if got.ndim == 2 else None}
+    except Exception as ex:  # noqa: BLE001
+        return {"error": type(ex).__name__, "msg": str(ex)[:200]}
+
+
 def run_batch(desc, rows, how, first=None, layout=None):
     """one batch; `layout` (streams/batch_layouts.py) says how the caller holds the numbers in memory.  The result carries
     `touched` when a buffer of the caller no longer holds what it held before the assignment"""
@@ -82,17 +93,19 @@ def run_batch(desc, rows, how, first=None, layout=None):
                 snap = S_BL.snapshot(owned)
                 e.input_values = matrix
             e.process()
-            vals = np.atleast_2d(e.output_values)
+            got = e.output_values
+            vals = np.atleast_2d(got)
             if vals.shape[0] != n:
                 vals = np.broadcast_to(vals, (n, vals.shape[1]))
-            return {"values": [[float(x) for x in r] for r in vals], "fuzzy": obs_fuzzy(e, n), "touched": S_BL.touched(snap)}
+            return {"values": [[float(x) for x in r] for r in vals], "fuzzy": obs_fuzzy(e, n), "touched": S_BL.touched(snap),
+                    "out_shape": list(np.shape(got)), "all": obs_all(e)}
     except Exception as ex:  # noqa: BLE001
         return {"error": type(ex).__name__, "msg": str(ex)[:200], "touched": S_BL.touched(snap)}
 
 
 def run_rows(desc, rows, first=None):
     e = G.build(desc)
-    values, fuzzy = [], []
+    values, fuzzy, out_shapes, alls = [], [], [], []
     for r in (first or []):
         with np.errstate(all="ignore"):
             for iv, v in zip(e.input_variables, r):
@@ -106,9 +119,39 @@ def run_rows(desc, rows, first=None):
                 e.process()
             values.append([float(np.take(ov.value, -1)) for ov in e.output_variables])
             fuzzy.append(obs_fuzzy(e, 1)[0])
+            out_shapes.append(list(np.shape(e.output_values)))
+            alls.append(obs_all(e))
         except Exception as ex:  # noqa: BLE001
             return {"error": type(ex).__name__, "msg": str(ex)[:200], "at_row": len(values)}
-    return {"values": values, "fuzzy": fuzzy}
+    return {"values": values, "fuzzy": fuzzy, "out_shapes": out_shapes, "all": alls}
+
+
+def same_tables(b, r, n):
+    """`Engine.output_values` and `Engine.values` after a batch of `n` rows against the row-by-row run.  "Row for row" is
+    meant literally: the batch has ONE ROW PER ROW of the inputs - `n` rows of output values, `n` rows of input and output
+    values side by side - whatever the engine is made of (also when no output variable received a value per row: every
+    output variable or every rule block disabled, no rule concluding an output), each row equal to what the row-by-row run
+    shows after that row; and `values` must not raise in one mode when it does not in the other."""
+    if "error" in b or "error" in r:
+        return True, ""                         # judged by `same_obs`
+    n_out = len(r["values"][0]) if r["values"] else None
+    if n_out is not None and b["out_shape"] != [n, n_out]:
+        return False, (f"Engine.output_values has shape {tuple(b['out_shape'])} after a batch of {n} rows "
+                       f"(row by row: {n} times {tuple(r['out_shapes'][0])})")
+    ba = b["all"]
+    for i, ra in enumerate(r["all"]):
+        if ("error" in ba) != ("error" in ra):
+            who = "the batch" if "error" in ba else f"row {i} of the row-by-row run"
+            err = ba if "error" in ba else ra
+            return False, f"Engine.values raises {err['error']} ({err['msg'][:120]}) in {who} only"
+        if "error" in ba:
+            continue
+        if ra["shape"][0] != 1 or ba["shape"] != [n, ra["shape"][1]]:
+            return False, f"Engine.values has shape {tuple(ba['shape'])} after a batch of {n} rows, row by row {tuple(ra['shape'])} per row"
+        for j, (x, y) in enumerate(zip(ba["rows"][i], ra["rows"][0])):
+            if not c01.feq(x, y, 1e-12):
+                return False, f"Engine.values row {i} column {j}: batch {x!r}, row by row {y!r}"
+    return True, ""
 
 
 def same_obs(a, b, tol=1e-12):
@@ -145,6 +188,9 @@ def oracle(case):
             ok, d = same_obs(b, r2)
             if not ok:
                 return False, f"second call after a first batch of {len(case['first'])} rows, {nm} vs row by row: {d}"
+            ok, d = same_tables(b, r2, len(rows))
+            if not ok:
+                return False, f"second call after a first batch of {len(case['first'])} rows, {nm}: {d}"
     a = run_batch(desc, rows, "arrays")
     m = run_batch(desc, rows, "matrix")
     r = run_rows(desc, rows)
@@ -157,6 +203,10 @@ def oracle(case):
     for nm, b in (("per-variable arrays", a), ("input matrix", m)):
         if b.get("touched"):
             return False, f"{nm}: {b['touched']} (the batch belongs to the caller; a row-by-row run leaves it alone)"
+    for nm, b in (("per-variable arrays", a), ("input matrix", m)):
+        ok, d = same_tables(b, r, len(rows))
+        if not ok:
+            return False, f"{nm}: {d}"
     if case.get("layout"):
         # the same numbers held the way the layout says (views of one buffer, one object for two variables, ...)
         lay = case["layout"]
@@ -167,6 +217,9 @@ def oracle(case):
                 return False, f"{nm} vs row by row: {d} (batch: {b.get('error')} {b.get('msg', '')}, rows: {r.get('error')})"
             if b.get("touched"):
                 return False, f"{nm}: {b['touched']} (the batch belongs to the caller; a row-by-row run leaves it alone)"
+            ok, d = same_tables(b, r, len(rows))
+            if not ok:
+                return False, f"{nm}: {d}"
     return True, "ok"
 
 
@@ -187,6 +240,12 @@ def gen_cases(ctx):
         yield case
 
 
+def per_row_outputs(desc):
+    """does some enabled output variable have an enabled rule, in an enabled block, that concludes it?"""
+    hit = {c["var"] for b in desc["blocks"] if b["enabled"] for r in b["rules"] if r["enabled"] for c in r["concls"]}
+    return any(o["enabled"] and o["name"] in hit for o in desc["outputs"])
+
+
 def compare(ctx, cases, outs, mism, family="batch"):
     """every case: three-way comparison on the implementation (the property oracle), then the batch against the model"""
     st = ctx.stats
@@ -194,7 +253,9 @@ def compare(ctx, cases, outs, mism, family="batch"):
         desc, rows = case["engine"], case["rows"]
         st.count(f"rows={len(rows)}")
         if family != "batch":
-            st.count("layout=" + case["layout"] if case.get("layout") else "special-value history")
+            st.count("layout=" + case["layout"] if case.get("layout") else case.get("family") or "special-value history")
+        if not per_row_outputs(desc):
+            st.count("no output variable receives a value per row")
         ok, detail = oracle(case)
         a = run_batch(desc, rows, "arrays")
         nt = "error" not in a and len(rows) >= 2 and any(math.isfinite(v) for r in a["values"] for v in r) and \
@@ -254,6 +315,8 @@ def correspond(ctx):
         # drawn after every earlier stream (their inputs stay what they were for a seed): batches dense in NaN / +-inf raw
         # output values, and batches held in memory in every way a caller may hold them (streams/batch_layouts.py)
         cs = list(S_BL.gen_special_history_cases(ctx)) + list(S_BL.gen_layout_cases(ctx))
+        # engines in which (some or all) output variables receive no value per row (drawn after the families above)
+        cs += list(S_BL.gen_no_value_per_row_cases(ctx))
         return model_lines(cs), lambda outs: compare(ctx, cs, outs, later, family="more")
 
     # the accessors of Engine against Op/EngineIO.lean, Op/InputValues.lean (models of the code ties C02.code_*)
@@ -263,7 +326,8 @@ def correspond(ctx):
 
 def search(ctx):
     import itertools
-    for case in itertools.chain(gen_cases(ctx), S_BL.gen_special_history_cases(ctx), S_BL.gen_layout_cases(ctx)):
+    for case in itertools.chain(gen_cases(ctx), S_BL.gen_special_history_cases(ctx), S_BL.gen_layout_cases(ctx),
+                                S_BL.gen_no_value_per_row_cases(ctx)):
         ok, d = oracle(case)
         if not ok:
             return [(case, d)]
